@@ -146,6 +146,10 @@ def judgeTreePayload : P (Option Verdict) := do
   if t == "-" then return none
   if t != "T" then throw s!"expected tree, got '{t}'"
   let (nodes, _) ← parseNode 0
+  -- the ordering invariant that the TU-certification theorem `tree_TU_partial3` (Props/C03TU.lean) takes as hypothesis `hord`:
+  -- children carry larger ids than their parent (the dump numbers nodes in pre-order), checked on every dumped tree
+  if !(nodes.all (fun nd => nd.children.all (fun ci => nd.id < ci.child))) then
+    return some (.fail "tree:order" "a child does not have a larger id than its parent")
   match checkTree nodes with
   | .ok _ => return some (.ok s!"tree:{nodes.length}:{treeTypeCounts nodes}")
   | .error (tag, msg) => return some (.fail tag msg)
